@@ -460,7 +460,8 @@ SPEC = Spec(
     prop="C10",
     rules=[r_raise_reach, r_check_before_insert, r_who_may_construct, r_cycle, r_no_reinit,
            r_global_guards, r_state],
-    floors={"R10-RAISE-REACH": 8, "R10-CHECK-BEFORE-INSERT": 10, "R10-SELF": 4, "R10-CYCLE": 5, "R10-STATE": 4},
+    floors={"R10-RAISE-REACH": 6, "R10-CHECK-BEFORE-INSERT": 9, "R10-SELF": 2,
+            "R10-CYCLE": 4, "R10-STATE": 2},
     explanation=(
         "Decides code-shape conditions, not 'every malformed pattern is caught'. "
         "R10-RAISE-REACH: each diagnostic the property names has a raise site "
